@@ -843,7 +843,18 @@ fn run_footprint_single(dec: Dec, opts: &RunOpts, rounds: usize, big_holes: bool
             free_order: (0..7).collect(),
         };
     }
-    let faults = if !big_holes && sim.dec.chance(K::Cfg, 1, 4) { FaultCfg { mmap_p: 1, ..FaultCfg::default() } } else { FaultCfg::default() };
+    // a quarter of the runs with refusals: sparse mmap refusals, or the release calls (mremap shrink of a
+    // trim, munmap of a free segment) failing now and then or always: what could not be given back
+    // must stay usable, the footprint must still not keep growing
+    let faults = if !big_holes && sim.dec.chance(K::Cfg, 1, 4) {
+        match sim.dec.choose(K::Cfg, 4) {
+            0 | 1 => FaultCfg { mmap_p: 1, ..FaultCfg::default() },
+            2 => FaultCfg { mremap_p: 4, munmap_p: 4, ..FaultCfg::default() },
+            _ => FaultCfg { mremap_p: 16, munmap_p: *sim.dec.pick(K::Cfg, &[0u32, 16]), ..FaultCfg::default() },
+        }
+    } else {
+        FaultCfg::default()
+    };
     let churn = !big_holes && sim.dec.chance(K::Cfg, 1, 4);
     // placement policy of the run: per call by decision, or consistently adjacent (Linux's
     // top-down layout puts each new mapping directly below the previous one)
@@ -1064,7 +1075,7 @@ impl Check for C04 {
         }
     }
     fn rule(&self) -> String {
-        "each case = one seeded workload round (1..50 requests from the C03 size profiles and alignments, free order forward/reverse/interleaved/random, frees in the middle of a round, 0..3 small long-lived blocks, 1 request in 5 reached by doubling reallocs from an eighth of its size, a huge-size profile of 6..42 MiB (every 4th case is of the big-holes family: 2..8 huge blocks with separators, frees in the middle of the round and 1..2 long-lived blocks), optional steady-state churn, optional sparse mmap refusals) repeated N times on one Dlmalloc (quick N=200; thorough N=200, one case in 12 N=3000) over the simulated address space with placement by decision; 1 case in 6 runs 2..3 simulated threads through Mutex<Dlmalloc>. The provider's exact mapped-byte total is sampled after every call; maxima per window of N/8 rounds. Violation = maxima strictly increasing over the last 5 windows AND total growth >= 256 KiB AND mapped bytes at the end > 3 x peak live bytes + 8 MiB; or: mapped bytes at the end exceed half of the simulated 4 GiB address space and either a mapping was refused for lack of room with the end above 3 x peak live bytes + 8 MiB, or the end is above 8 x peak live bytes + 64 MiB (growth that stopped at the wall). One run in 5x2 uses a consistent placement policy (top-down: every new mapping directly below the lowest one, as Linux lays mappings out; or bottom-up) instead of a placement drawn per call. non-trivial = >=3 requests per round and at least one trim or unmap happened; distinct = hash over operation counts and provider counters. Every 13th case (case % 13 == 12) runs on engine B instead (crates/checks/src/c04b.rs): probes/allocprobe, a no-libc binary whose global allocator is tiny-std's own GlobalDlMalloc, under the ptrace simulator: 64..200 rounds of 2..4 real threads (1 case in 6: main alone) each doing 1..5 times 'allocate 2..8 blocks (small/medium/>=64 KiB profiles), touch, free in a generated order', all joined, one uncontended alloc/free on main, ROUND_END; scheduling points at every system call and right after every atomic instruction (breakpoints), 2..6 further single steps behind an atomic instruction every other time with the preempted thread held back 0..12 quanta, <=24 random bursts; mapped bytes = the tracer's mapping ledger at each ROUND_END (cross-checked with /proc/pid/maps); same growth oracle, signature footprint|unbounded-growth|global-allocator; non-trivial there = >=2 threads and a futex park or a burst while two threads were alive".into()
+        "each case = one seeded workload round (1..50 requests from the C03 size profiles and alignments, free order forward/reverse/interleaved/random, frees in the middle of a round, 0..3 small long-lived blocks, 1 request in 5 reached by doubling reallocs from an eighth of its size, a huge-size profile of 6..42 MiB (every 4th case is of the big-holes family: 2..8 huge blocks with separators, frees in the middle of the round and 1..2 long-lived blocks), optional steady-state churn, optional refusals: sparse mmap refusals, or mremap/munmap (the release calls of trim and segment release) failing sparsely or always) repeated N times on one Dlmalloc (quick N=200; thorough N=200, one case in 12 N=3000) over the simulated address space with placement by decision; 1 case in 6 runs 2..3 simulated threads through Mutex<Dlmalloc>. The provider's exact mapped-byte total is sampled after every call; maxima per window of N/8 rounds. Violation = maxima strictly increasing over the last 5 windows AND total growth >= 256 KiB AND mapped bytes at the end > 3 x peak live bytes + 8 MiB; or: mapped bytes at the end exceed half of the simulated 4 GiB address space and either a mapping was refused for lack of room with the end above 3 x peak live bytes + 8 MiB, or the end is above 8 x peak live bytes + 64 MiB (growth that stopped at the wall). One run in 5x2 uses a consistent placement policy (top-down: every new mapping directly below the lowest one, as Linux lays mappings out; or bottom-up) instead of a placement drawn per call. non-trivial = >=3 requests per round and at least one trim or unmap happened; distinct = hash over operation counts and provider counters. Every 13th case (case % 13 == 12) runs on engine B instead (crates/checks/src/c04b.rs): probes/allocprobe, a no-libc binary whose global allocator is tiny-std's own GlobalDlMalloc, under the ptrace simulator: 64..200 rounds of 2..4 real threads (1 case in 6: main alone) each doing 1..5 times 'allocate 2..8 blocks (small/medium/>=64 KiB profiles), touch, free in a generated order', all joined, one uncontended alloc/free on main, ROUND_END; scheduling points at every system call and right after every atomic instruction (breakpoints), 2..6 further single steps behind an atomic instruction every other time with the preempted thread held back 0..12 quanta, <=24 random bursts; mapped bytes = the tracer's mapping ledger at each ROUND_END (cross-checked with /proc/pid/maps); same growth oracle, signature footprint|unbounded-growth|global-allocator; non-trivial there = >=2 threads and a futex park or a burst while two threads were alive".into()
     }
     fn assumptions(&self) -> Vec<String> {
         vec![
